@@ -288,7 +288,7 @@ def exec_best(case, ctx):
 
 # =========================================================================== Part B
 START_ENVS = ["tsp", "atsp", "cvrp", "cvrptw", "sdvrp", "svrp", "op", "pctsp", "spctsp", "pdp", "mtsp", "mtvrp",
-              "smtwtp", "flp", "mcp", "fjsp", "jssp", "ffsp"]
+              "smtwtp", "flp", "mcp", "fjsp", "jssp", "ffsp", "mdcpdp"]
 START_RULE = {"tsp": "ops_all_nodes", "atsp": "ops_all_nodes", "flp": "flp_own", "mcp": "mcp_own",
               "op": "ops_depot+op_resample", "pdp": "pdp_pickups", "mtvrp": "mtvrp_own", "fjsp": "random_sample",
               "jssp": "random_sample", "ffsp": "ffsp_tables"}
@@ -304,6 +304,8 @@ def size_guess(name, cfg):
         return cfg["sets"]
     if name == "ffsp":
         return cfg["jobs"] + 1
+    if name == "mdcpdp":
+        return cfg["n"] + cfg["depots"]
     return 8
 
 
@@ -314,6 +316,8 @@ def start_cases(draw, tier="quick"):
     cfg = draw(spec.cfg(tier))
     B = draw(st.integers(1, 6))
     src = draw(st.sampled_from(spec.sources))
+    if isinstance(cfg.get("n"), int) and cfg["n"] > 100:
+        src, B = "gen", min(B, 3)
     case = {"env": name, "cfg": cfg, "B": B, "src": src, "seed": draw(st.integers(0, 2 ** 31 - 1))}
     inst_cfg = cfg
     if name in MISMATCH and draw(st.integers(0, 2)) == 0:
@@ -706,15 +710,15 @@ def preimport():
 SUBS = [
     Sub("ops_exhaustive", exec_ops, enumerate=enum_ops, shards=16, weight=1.0),
     Sub("ops_random", exec_ops, strategy=lambda tier: ops_cases(tier),
-        budget={"quick": 1200, "thorough": 24000}, shards=8),
+        budget={"quick": 3600, "thorough": 24000}, shards=8),
     # get_best_actions is an unused, undocumented helper whose output layout nothing relies on: it is outside the
     # asserted domain (recorded as an observation in DESIGN.md), the sub-check exec_best is kept for reference only.
     Sub("start_nodes", exec_starts, strategy=lambda tier: start_cases(tier),
-        budget={"quick": 2400, "thorough": 48000}, shards=16, weight=2.0),
+        budget={"quick": 7200, "thorough": 48000}, shards=16, weight=2.0),
     Sub("rollouts", exec_rollouts, strategy=lambda tier: rollout_cases(tier),
-        budget={"quick": 320, "thorough": 6400}, shards=16, shrink=False, minimize=rollout_minimizer, weight=3.0),
+        budget={"quick": 960, "thorough": 6400}, shards=16, shrink=False, minimize=rollout_minimizer, weight=3.0),
     Sub("pomo", exec_pomo, strategy=lambda tier: pomo_cases(tier),
-        budget={"quick": 64, "thorough": 1280}, shards=8, shrink=False, minimize=pomo_minimizer, weight=2.5),
+        budget={"quick": 192, "thorough": 1280}, shards=8, shrink=False, minimize=pomo_minimizer, weight=2.5),
 ]
 
 
